@@ -50,7 +50,7 @@ def check(w):
         byid = {s["id"]: s for s in scen}
         obs2, _ = run(w, [byid[i] for i in sorted(rej)], "confirm")
         rej2, _, _ = validate(w, obs2, "confirm")
-        vlib_unreproduced(v, rej, rej2)
+        vlib_unreproduced(v, rej, rej2, total=len(obs))
         for o in obs2:
             if o["id"] in rej2:
                 v.violation({"kind": o["kind"], "changed": o["changed"], "refused": o["refused"], "dry_run": "n" in o["flags"], "sub": o["sub"], "missing": o["missing"],
